@@ -27,7 +27,8 @@ Proof.
   assert (F : forall flt' sfx, filter_files off (fsfx sp) fixed (related_files f (fsfx sp) fixed) flt' sfx <> None).
   { intros flt' sfx. unfold filter_files. apply filter_opt_total. intros n.
     destruct (infix_candidate (fsfx sp) sfx fixed n); discriminate. }
-  destruct (sel_plain sel), (sel_gz sel), (sel_rcur sel), (sel_custom sel);
+  destruct (sel_custom sel) as [x|]; [destruct (sel_rcur sel && beq x cur_infix)|];
+  destruct (sel_plain sel), (sel_gz sel), (sel_rcur sel);
     repeat match goal with
            | |- context [filter_files ?o ?s ?fx ?r ?fl ?sx] =>
              let E := fresh "E" in destruct (filter_files o s fx r fl sx) eqn:E; [|exfalso; exact (F _ _ E)]
